@@ -17,7 +17,7 @@ func init() {
 			"R2 no ambient input: the import set of the core packages is within the pure whitelist, there is no go statement, channel operation, select, or range over a map outside init; " +
 			"R3 no aliasing out of a parse: no ast node type can reach *Lexer/*Parser/*token.File through its fields, tokens stored in the AST are Clone() results, File.lines is written only by File.init on its own receiver. " +
 			"Together: every write of a call goes to memory allocated in that call or owned by its Parser, every read of shared memory reads data immutable after initialisation. Assumes the standard-library functions used are pure.",
-		Rules: []ruleFn{ruleC18R1, ruleC18R2, ruleC18R3, ruleC18R4},
+		Rules: []ruleFn{ruleC18R1, ruleC18R2, ruleC18R3, ruleC18R4, ruleC18R5, ruleC13R5},
 	})
 }
 
@@ -106,6 +106,16 @@ func (w *World) trackShared(v ssa.Value, isAddr bool, origin string, seen map[ss
 		case *ssa.Range, *ssa.BinOp, *ssa.If, *ssa.TypeAssert, *ssa.Extract, *ssa.Next:
 			// reads
 		case *ssa.Return:
+			// (an error sentinel is an immutable value behind an interface; an exported variable is public anyway)
+			originExported := false
+			if i := strings.LastIndex(origin, "."); i >= 0 && i+1 < len(origin) {
+				c := origin[i+1]
+				originExported = c >= 'A' && c <= 'Z'
+			}
+			if (refLike(v.Type()) || isAddr) && fn.Object() != nil && fn.Object().Exported() && fn.Parent() == nil && !types.Implements(v.Type(), types.Universe.Lookup("error").Type().Underlying().(*types.Interface)) && !originExported {
+				// handed to callers outside the module, who own what they are given
+				*out = append(*out, effFinding{u, origin + " is returned by the exported " + funcName(fn) + ": every caller gets the same shared value and may write it", true})
+			}
 			if refLike(v.Type()) || isAddr {
 				// returned to callers: follow into the callers' uses of the call value
 				for _, caller := range w.callersOf(fn) {
@@ -666,4 +676,101 @@ func nthVerb(f string, n int) byte {
 		k++
 	}
 	return 0
+}
+
+// ruleC18R5: a returned function value carries no mutable state of its maker. ast.Preorder returns an iterator; a
+// "stopped" flag that lives in Preorder's frame instead of in one run of the iterator is shared by every run of the
+// same iterator value: after one early break all later runs yield nothing, and concurrent runs race on it.
+func ruleC18R5(w *World, r *Report) {
+	const rule = "C18/R5"
+	r.rule(rule, "function values returned by exported functions of the core packages (the Preorder iterators) capture no variable cell of the function that made them which they — or a closure nested in them — write: all mutable state of an iterator run is allocated inside the run", 2)
+	n := 0
+	var writes func(fn *ssa.Function, cellIdx int, seen map[*ssa.Function]bool) bool
+	writes = func(fn *ssa.Function, cellIdx int, seen map[*ssa.Function]bool) bool {
+		if seen[fn] || cellIdx >= len(fn.FreeVars) {
+			return false
+		}
+		seen[fn] = true
+		fv := fn.FreeVars[cellIdx]
+		var addrWritten func(a ssa.Value, depth int) bool
+		addrWritten = func(a ssa.Value, depth int) bool {
+			if depth > 4 {
+				return true
+			}
+			for _, u := range referrers(a) {
+				switch x := u.(type) {
+				case *ssa.Store:
+					if x.Addr == a {
+						return true
+					}
+				case *ssa.FieldAddr:
+					if addrWritten(x, depth+1) {
+						return true
+					}
+				case *ssa.IndexAddr:
+					if addrWritten(x, depth+1) {
+						return true
+					}
+				case ssa.CallInstruction:
+					// the address of the cell is handed to a call (a method with a pointer receiver): it may write
+					return true
+				case *ssa.MakeClosure:
+					for bi, bnd := range x.Bindings {
+						if bnd == a {
+							if inner, ok := x.Fn.(*ssa.Function); ok && writes(inner, bi, seen) {
+								return true
+							}
+						}
+					}
+				}
+			}
+			return false
+		}
+		return addrWritten(fv, 0)
+	}
+	for _, fn := range w.ModFns {
+		if !corePkg(fnPkgPath(fn)) || fn.Blocks == nil || fn.Parent() != nil || fn.Object() == nil || !fn.Object().Exported() {
+			continue
+		}
+		res := fn.Signature.Results()
+		if res.Len() != 1 {
+			continue
+		}
+		if _, isFunc := res.At(0).Type().Underlying().(*types.Signature); !isFunc {
+			continue
+		}
+		for _, b := range fn.Blocks {
+			ret, ok := b.Instrs[len(b.Instrs)-1].(*ssa.Return)
+			if !ok {
+				continue
+			}
+			v := ret.Results[0]
+			if ct, ok := v.(*ssa.ChangeType); ok {
+				v = ct.X
+			}
+			mc, ok := v.(*ssa.MakeClosure)
+			if !ok {
+				continue
+			}
+			n++
+			construct := "function value returned by " + funcName(fn)
+			var shared []string
+			cl := mc.Fn.(*ssa.Function)
+			for bi, bnd := range mc.Bindings {
+				if al, isCell := bnd.(*ssa.Alloc); isCell {
+					if writes(cl, bi, map[*ssa.Function]bool{}) {
+						shared = append(shared, al.Comment)
+					}
+				}
+			}
+			if len(shared) > 0 {
+				r.bad(rule, construct, w.pos(mc.Pos()), fmt.Sprintf("captures the variable(s) %v of %s and writes them: every run of the same iterator value shares them (after one early stop all later runs are empty; concurrent runs race)", shared, fn.Name()))
+			} else {
+				r.ok(rule, construct, w.pos(mc.Pos()), "captures only values it does not write")
+			}
+		}
+	}
+	if n < 2 {
+		r.errorf("expected the iterators returned by ast.Preorder and ast.PreorderMany, found %d", n)
+	}
 }
